@@ -213,9 +213,45 @@ lazy["builtins.cast"] = _cast_lazy
 lazy["typing.cast"] = _cast_lazy
 
 
+txt = z3.Function("txt", L.Cnd, StrSort)  # str(conditional) = its text representation
+
+
 @fn("builtins.str", tb="TB-py")
 def _str(ex, args, kwargs, node):
+    if args and isinstance(args[0], VCnd):
+        return VStr(txt(args[0].t))
+    if args and isinstance(args[0], VStr):
+        return args[0]
     return VStr(ex.st.fresh_const("str", StrSort))
+
+
+@meth("dict", "items", tb="TB-py")
+def _items(ex, d, args, kwargs, node):
+    return VSeq(d.KL.len(d.keys), lambda i: VTuple([d.kt.wrap(d.KL.at(d.keys, i)), d.et.wrap(z3.Select(d.val, d.KL.at(d.keys, i)))]))
+
+
+def _pure(node):
+    """expression without calls other than len/str/bool: evaluating it has no side effect"""
+    for n in ast.walk(node):
+        if isinstance(n, ast.Call):
+            ok = isinstance(n.func, ast.Name) and n.func.id in ("len", "str", "bool", "int", "float")
+            ok = ok or (isinstance(n.func, ast.Attribute) and n.func.attr in ("values", "keys", "items") and not n.args)
+            if not ok:
+                return False
+        if isinstance(n, (ast.Await, ast.Yield, ast.YieldFrom, ast.NamedExpr)):
+            return False
+    return True
+
+
+def _sum_lazy(ex, node, f):
+    """sum(<pure generator>) only feeds logging/timing columns: an arbitrary number"""
+    if len(node.args) == 1 and isinstance(node.args[0], ast.GeneratorExp) and _pure(node.args[0]):
+        ex.dropped.append((ex.rel(node), "value of sum(<pure generator>) abstracted to an arbitrary number"))
+        return VFloat()
+    raise Unsupported("sum() of this shape")
+
+
+lazy["builtins.sum"] = _sum_lazy
 
 
 @fn("builtins.float", tb="TB-py")
